@@ -211,8 +211,29 @@ def ort_reference(op, mv, p, args):
     return ent["sess"].run(None, {f"a{i}": np.ascontiguousarray(v, dtype=F32) for i, v in enumerate(args)})[0]
 
 
+# The operators each of these macros emits, per module version — a literal table (it was read off the
+# single-version models once): expectations must not depend on the code under test being able to build.
+_RS, _C = ["Constant", "Reshape"], ["Constant"]
+ORT_EMITS = {
+    "avg_pool": lambda mv: _RS + ["AveragePool"] + _RS,
+    "cast_like": lambda mv: ["Constant", "CastLike", "Cast"],
+    "dft": lambda mv: _RS + (_C if mv >= 20 else []) + ["DFT"] + _C * 3 + ["Slice", "Constant", "Squeeze"],
+    "equal": lambda mv: ["Abs", "Equal", "Cast", "Add"],
+    "grid_sample": lambda mv: _RS + ["Constant", "GridSample"] + _RS,
+    "isinf": lambda mv: ["IsInf", "Constant", "Where"],
+    "lp_pool": lambda mv: _RS + ["LpPool"] + _RS,
+    "optional": lambda mv: ["Optional", "OptionalGetElement"],
+    "qdq": lambda mv: _C * 2 + ["QuantizeLinear"] + _C * 2 + ["DequantizeLinear"],
+    "resize": lambda mv: _RS + ["Constant", "Resize"] + _C * 4 + ["Slice"] + _RS,
+    "rlogsum": lambda mv: ["Abs", "Constant", "Add"] + (_C if mv >= 18 else []) + ["ReduceLogSum", "Sub"],
+    "rlse": lambda mv: ["Tanh"] + (_C if mv >= 18 else []) + ["ReduceLogSumExp", "Sub"],
+    "scatter_el": lambda mv: _C * 2 + ["ScatterElements"],
+    "scatter_nd": lambda mv: _C * 2 + ["ScatterND"],
+    "size": lambda mv: ["Size", "Cast", "Add"],
+}
+
 for _n, _b in ORT_MACROS.items():
-    macro(_n, 1, (lambda n: lambda a, p: None)(_n), _b, (lambda n: lambda mv, p: single(n, mv, p)["ops"])(_n),
+    macro(_n, 1, (lambda n: lambda a, p: None)(_n), _b, (lambda n: lambda mv, p: ORT_EMITS[n](mv))(_n),
           versioned=True, ort_ref=True)
 
 # static rank made unknown / restored (the input "s" holds [2, 3] at run time)
@@ -234,7 +255,7 @@ ML_MACROS = {
         "emits": lambda mv, p: [("ai.onnx.ml", "Scaler")],
     },
     "ml_binarizer": {
-        "np": lambda a, p: (a[0] > F32(0.25)).astype(F32),
+        "np": lambda a, p: (a[0] > F32(0.26)).astype(F32),
         "emits": lambda mv, p: [("ai.onnx.ml", "Binarizer")],
     },
 }
@@ -249,12 +270,12 @@ def build_ml(name, mv, dv, a):
     if name == "ml_scaler":
         return m.scaler(a[0], offset=[0.5], scale=[2.0])
     if name == "ml_binarizer":
-        return m.binarizer(a[0], threshold=0.25)
+        return m.binarizer(a[0], threshold=0.26)
     raise KeyError(name)
 
 
 # --------------------------------------------------------------------------- inlined models
-def old_model(kind: str, opset: int):
+def old_model(kind: str, opset: int, alias: bool = False):
     """Hand-written models against old default-domain opsets (onnx.helper only)."""
     import onnx
     from onnx import TensorProto as TP
@@ -273,8 +294,196 @@ def old_model(kind: str, opset: int):
         raise KeyError(kind)
     g = h.make_graph(nodes, "old", [h.make_tensor_value_info("a", TP.FLOAT, [2, 3])],
                      [h.make_tensor_value_info("b", TP.FLOAT, [2, 3])])
-    m = h.make_model(g, opset_imports=[h.make_operatorsetid("", opset)], ir_version=8)
+    imps = [h.make_operatorsetid("", opset)] + ([h.make_operatorsetid("ai.onnx", opset)] if alias else [])
+    m = h.make_model(g, opset_imports=imps, ir_version=8)
     onnx.checker.check_model(m, full_check=True)
+    return m
+
+
+# ---- legacy models that need REAL conversion and also use a non-default domain (ai.onnx.ml 1/2/3 or a
+# custom domain). (lowest, highest default-domain opset the body is valid at, nodes a -> q)
+CUSTOM_DOMAIN = "verif.custom"
+
+
+def _c64(h, TP, name, vals):
+    return h.make_node("Constant", [], [name], value=h.make_tensor(name + "_t", TP.INT64, [len(vals)], vals))
+
+
+OLDX_BODIES = {
+    "unsq_sq_relu": (9, 12, lambda h, TP: [h.make_node("Unsqueeze", ["a0"], ["u"], axes=[0]),
+                                           h.make_node("Squeeze", ["u"], ["q0"], axes=[0]),
+                                           h.make_node("Relu", ["q0"], ["q"])]),
+    "rsum_attr": (9, 12, lambda h, TP: [h.make_node("ReduceSum", ["a0"], ["r"], axes=[1], keepdims=1),
+                                        h.make_node("Sub", ["a0", "r"], ["q"])]),
+    # Softmax / LogSoftmax before 13 flatten to 2-D at `axis`: on rank 3 the MEANING changed at 13
+    "softmax3": (9, 12, lambda h, TP: [h.make_node("Unsqueeze", ["a0"], ["u"], axes=[0]),
+                                       h.make_node("Softmax", ["u"], ["s"], axis=1),
+                                       h.make_node("Squeeze", ["s"], ["q"], axes=[0])]),
+    "logsoftmax3": (9, 12, lambda h, TP: [h.make_node("Unsqueeze", ["a0"], ["u"], axes=[0]),
+                                          h.make_node("LogSoftmax", ["u"], ["s"], axis=1),
+                                          h.make_node("Squeeze", ["s"], ["q"], axes=[0])]),
+    # the same without any node whose signature changed: kept unconverted these pass every check and only
+    # compute other values
+    "softmax3_reshape": (9, 12, lambda h, TP: [_c64(h, TP, "s3", [1, 2, 3]), h.make_node("Reshape", ["a0", "s3"], ["u"]),
+                                               h.make_node("Softmax", ["u"], ["s"], axis=1),
+                                               _c64(h, TP, "s2", [2, 3]), h.make_node("Reshape", ["s", "s2"], ["q"])]),
+    "logsoftmax3_reshape": (9, 12, lambda h, TP: [_c64(h, TP, "s3", [1, 2, 3]), h.make_node("Reshape", ["a0", "s3"], ["u"]),
+                                                  h.make_node("LogSoftmax", ["u"], ["s"], axis=1),
+                                                  _c64(h, TP, "s2", [2, 3]), h.make_node("Reshape", ["s", "s2"], ["q"])]),
+    "rmean_attr": (9, 17, lambda h, TP: [h.make_node("ReduceMean", ["a0"], ["r"], axes=[1], keepdims=1),
+                                         h.make_node("Sub", ["a0", "r"], ["q"])]),
+    "rmax_attr": (9, 17, lambda h, TP: [h.make_node("ReduceMax", ["a0"], ["r"], axes=[0], keepdims=1),
+                                        h.make_node("Sub", ["a0", "r"], ["q"])]),
+    "split_attr": (9, 12, lambda h, TP: [h.make_node("Split", ["a0"], ["s0", "s1"], axis=1, split=[1, 2]),
+                                         h.make_node("Concat", ["s1", "s0"], ["q"], axis=1)]),
+    "clip_attr": (9, 10, lambda h, TP: [h.make_node("Clip", ["a0"], ["q"], min=-1.0, max=2.0)]),
+    "pad_attr": (10, 10, lambda h, TP: [h.make_node("Pad", ["a0"], ["p"], pads=[0, 1, 0, 0]),
+                                        _c64(h, TP, "st", [0]), _c64(h, TP, "en", [3]), _c64(h, TP, "ax", [1]),
+                                        h.make_node("Slice", ["p", "st", "en", "ax"], ["q"])]),
+    "dropout_ratio": (9, 11, lambda h, TP: [h.make_node("Dropout", ["a0"], ["d"], ratio=0.3),
+                                            h.make_node("Neg", ["d"], ["q"])]),
+    "topk_attr": (9, 9, lambda h, TP: [h.make_node("TopK", ["a0"], ["v", "i"], k=3, axis=1),
+                                       h.make_node("Neg", ["v"], ["q"])]),
+    "relu_neg": (9, 17, lambda h, TP: [h.make_node("Relu", ["a0"], ["r"]), h.make_node("Neg", ["r"], ["q"])]),
+}
+# (lowest ai.onnx.ml version the node is valid at, node src -> dst); every one maps (2,3) float -> (2,3) float
+OLDX_ML = {
+    "scaler": (1, lambda h, TP, s, d: [h.make_node("Scaler", [s], [d], domain="ai.onnx.ml", offset=[0.5], scale=[2.0])]),
+    "binarizer": (1, lambda h, TP, s, d: [h.make_node("Binarizer", [s], [d], domain="ai.onnx.ml", threshold=0.26)]),
+    "norm": (1, lambda h, TP, s, d: [h.make_node("Normalizer", [s], [d], domain="ai.onnx.ml", norm="L1")]),
+    "afe": (1, lambda h, TP, s, d: [_c64(h, TP, d + "_ix", [2, 0, 1]),
+                                    h.make_node("ArrayFeatureExtractor", [s, d + "_ix"], [d], domain="ai.onnx.ml")]),
+    # LabelEncoder compares floats exactly: its input is snapped to integers first, with the steps at
+    # values no computation here lands near ((k - 0.41) / 3.7), so that rounding differences between runtimes
+    # and the reference cannot flip a label
+    "le2": (2, lambda h, TP, s, d: [
+        h.make_node("Constant", [], [d + "_c1"], value=h.make_tensor(d + "_c1t", TP.FLOAT, [], [3.7])),
+        h.make_node("Mul", [s, d + "_c1"], [d + "_m"]),
+        h.make_node("Constant", [], [d + "_c2"], value=h.make_tensor(d + "_c2t", TP.FLOAT, [], [0.41])),
+        h.make_node("Add", [d + "_m", d + "_c2"], [d + "_a"]),
+        h.make_node("Floor", [d + "_a"], [d + "_f"]),
+        h.make_node("LabelEncoder", [d + "_f"], [d], domain="ai.onnx.ml", keys_floats=[0.0, 1.0, 2.0, 4.0, 7.0, -2.0],
+                    values_floats=[5.0, 6.0, 7.0, 8.0, 9.0, 4.0], default_float=-1.0)]),
+    # LabelEncoder-1 (classes_strings): its form is NOT accepted from ai.onnx.ml 2 on and nothing converts it
+    "le1": (1, lambda h, TP, s, d: [h.make_node("Cast", [s], [d + "_i"], to=TP.INT64),
+                                    h.make_node("LabelEncoder", [d + "_i"], [d + "_s"], domain="ai.onnx.ml",
+                                                classes_strings=["a", "b"], default_string="z"),
+                                    h.make_node("LabelEncoder", [d + "_s"], [d + "_j"], domain="ai.onnx.ml",
+                                                classes_strings=["a", "b"], default_int64=-1),
+                                    h.make_node("Cast", [d + "_j"], [d], to=TP.FLOAT)]),
+}
+
+
+def oldx_model(md, *, for_runtime: bool = False):
+    """A legacy model: [ml / custom node] body [ml / custom node]. `for_runtime`: custom-domain nodes (which no
+    runtime implements; their meaning here is the identity) are written as Identity, the import is dropped."""
+    import onnx
+    from onnx import TensorProto as TP
+    from onnx import helper as h
+
+    lo, hi, mk = OLDX_BODIES[md["body"]]
+    if not (lo <= md["opset"] <= hi):
+        raise ValueError(f"{md['body']} is not valid at opset {md['opset']}")
+    pre, post = [], []
+    imps = [h.make_operatorsetid("", md["opset"])]
+    if md.get("alias"):
+        imps.append(h.make_operatorsetid("ai.onnx", md["opset"]))
+    cur_in, cur_out = "a", "b"
+    # which side the extra nodes sit on
+    tails = []
+    if md.get("ml"):
+        kind, v = md["ml"]
+        if v < OLDX_ML[kind][0]:
+            raise ValueError(f"{kind} is not valid at ai.onnx.ml {v}")
+        tails.append(("ml", kind))
+        imps.append(h.make_operatorsetid("ai.onnx.ml", v))
+    if md.get("custom"):
+        tails.append(("custom", None))
+        if not for_runtime:
+            imps.append(h.make_operatorsetid(CUSTOM_DOMAIN, md["custom"]))
+    before = md.get("pos") == "before"
+    names = iter(["t1", "t2", "t3"])
+    if before:
+        src = "a"
+        for what, kind in tails:
+            dst = next(names)
+            pre += _oldx_tail(h, TP, what, kind, src, dst, for_runtime)
+            src = dst
+        pre.append(h.make_node("Identity", [src], ["a0"]))
+        post.append(h.make_node("Identity", ["q"], ["b"]))
+    else:
+        pre.append(h.make_node("Identity", ["a"], ["a0"]))
+        src = "q"
+        for what, kind in tails:
+            dst = next(names)
+            post += _oldx_tail(h, TP, what, kind, src, dst, for_runtime)
+            src = dst
+        post.append(h.make_node("Identity", [src], ["b"]))
+    g = h.make_graph(pre + mk(h, TP) + post, "oldx", [h.make_tensor_value_info("a", TP.FLOAT, [2, 3])],
+                     [h.make_tensor_value_info("b", TP.FLOAT, [2, 3])])
+    m = h.make_model(g, opset_imports=imps, ir_version=7)
+    onnx.checker.check_model(m, full_check=True)
+    return m
+
+
+def _oldx_tail(h, TP, what, kind, src, dst, for_runtime):
+    if what == "ml":
+        return OLDX_ML[kind][1](h, TP, src, dst)
+    if for_runtime:
+        return [h.make_node("Identity", [src], [dst])]
+    return [h.make_node("Ident", [src], [dst], domain=CUSTOM_DOMAIN)]
+
+
+_OLDX_SESS: dict = {}
+
+
+def oldx_reference(md, a):
+    """"Every operator at the version it was written in": the legacy model alone, run by onnxruntime."""
+    import json
+
+    import onnxruntime as ort
+
+    key = json.dumps(md, sort_keys=True)
+    if key not in _OLDX_SESS:
+        so = ort.SessionOptions()
+        so.log_severity_level = 4
+        so.intra_op_num_threads = 1
+        so.inter_op_num_threads = 1
+        _OLDX_SESS[key] = ort.InferenceSession(oldx_model(md, for_runtime=True).SerializeToString(), so,
+                                               providers=["CPUExecutionProvider"])
+    return _OLDX_SESS[key].run(None, {"a": np.ascontiguousarray(a, dtype=F32)})[0]
+
+
+def strip_custom(model):
+    """A copy of a built model in which the custom-domain nodes (meaning: identity) are Identity nodes and the
+    custom domain is not imported — what a runtime can execute. Model-free: ModelProto in, ModelProto out."""
+    import onnx
+
+    m = onnx.ModelProto()
+    m.CopyFrom(model)
+    found = [False]
+
+    def fix(nodes):
+        for n in nodes:
+            if n.domain == CUSTOM_DOMAIN and n.op_type == "Ident":
+                n.domain = ""
+                n.op_type = "Identity"
+                found[0] = True
+            for at in n.attribute:
+                if at.type == onnx.AttributeProto.GRAPH:
+                    fix(at.g.node)
+                for g_ in at.graphs:
+                    fix(g_.node)
+
+    fix(m.graph.node)
+    for f in m.functions:
+        fix(f.node)
+    if not found[0]:
+        return model
+    for holder in [m] + list(m.functions):
+        keep = [o for o in holder.opset_import if o.domain != CUSTOM_DOMAIN]
+        del holder.opset_import[:]
+        holder.opset_import.extend(keep)
     return m
 
 
@@ -298,6 +507,8 @@ class Realiser:
         self.s = argument(Tensor(np.int64, (None,)))
         self.uses_s = False
         self.uses_c = False
+        self.fn_cache: dict = {}      # (name, domain, definition) -> to_function callable / Function factory
+        self.inline_cache: dict = {}  # model description -> the callable `inline(model)` returned
 
     def block(self, nodes, env):
         for st in nodes:
@@ -323,7 +534,10 @@ class Realiser:
 
             return o.if_(cond, then_branch=mk(st["then"]), else_branch=mk(st["else"]))[0]
         if op == "reffn":  # a Function subclass whose body refers to the function's attribute (tests/test_function.py idiom)
-            return self.ref_function(st)(env[st["args"][0]])
+            key = ("reffn", st["name"], st["mv"])
+            if key not in self.fn_cache:
+                self.fn_cache[key] = self.ref_function(st)
+            return self.fn_cache[key](env[st["args"][0]], st["k"])
         if op == "loop":  # two iterations over one state; the body may use outer values
             o = ops(st["mv"])
             blk, pid = st["body"], st["param"]
@@ -338,6 +552,13 @@ class Realiser:
         if op == "inline":
             from spox import inline
 
+            if st.get("share"):  # ONE callable returned by `inline`, applied at several places
+                import json as _json
+
+                key = _json.dumps(st["model"], sort_keys=True)
+                if key not in self.inline_cache:
+                    self.inline_cache[key] = inline(self.model_of(st["model"]))
+                return list(self.inline_cache[key](env[st["args"][0]]).values())[0]
             m = self.model_of(st["model"])
             return list(inline(m)(env[st["args"][0]]).values())[0]
         if op == "func":
@@ -350,9 +571,16 @@ class Realiser:
                 self.block(blk["nodes"], e)
                 return [e[blk["out"]]]
 
-            # to_function inspects the signature: give it the right number of positional parameters
-            src = "lambda {0}: body({0})".format(", ".join(f"a{i}" for i in range(len(params))))
-            fn = to_function(st["name"], st.get("domain", "spox.verif"))(eval(src, {"body": body}))
+            # a function statement with the name and definition of an earlier one is another APPLICATION of
+            # the same function (the same `to_function` callable called again)
+            import json as _json
+
+            key = (st["name"], st.get("domain", "spox.verif"), _json.dumps([params, blk], sort_keys=True))
+            if key not in self.fn_cache:
+                # to_function inspects the signature: give it the right number of positional parameters
+                src = "lambda {0}: body({0})".format(", ".join(f"a{i}" for i in range(len(params))))
+                self.fn_cache[key] = to_function(st["name"], st.get("domain", "spox.verif"))(eval(src, {"body": body}))
+            fn = self.fn_cache[key]
             return list(fn(*[env[a] for a in st["args"]]))[0]
         if op in ML_MACROS:
             return build_ml(op, st["mv"], st.get("dv", 17), [env[a] for a in st["args"]])
@@ -389,7 +617,9 @@ class Realiser:
                         else_branch=lambda: [o.neg(r.x)])[0]
             return build({"a": r.x}, {"b": res})
         if md["kind"] == "old":
-            return old_model(md["body"], md["opset"])
+            return old_model(md["body"], md["opset"], bool(md.get("alias")))
+        if md["kind"] == "oldx":
+            return oldx_model(md)
         from spox import build
 
         r = Realiser()
@@ -442,6 +672,8 @@ def np_stmt(st, env, c):
             return ((a - F32(0.5)) * F32(2.0)).astype(F32)
         if md["kind"] == "old":
             return OLD_NP[md["body"]](a).astype(F32)
+        if md["kind"] == "oldx":
+            return np.asarray(oldx_reference(md, a), dtype=F32)
         e = {"x": a}
         np_block(md["prog"]["nodes"], e, c)
         return e[md["prog"]["out"]]
@@ -511,6 +743,13 @@ def model_imports(md) -> list[tuple[str, int]]:
         return sorted(policy(req).items())
     if md["kind"] == "old":
         return [("", md["opset"])]
+    if md["kind"] == "oldx":
+        out = [("", md["opset"])]
+        if md.get("ml"):
+            out.append(("ai.onnx.ml", md["ml"][1]))
+        if md.get("custom"):
+            out.append((CUSTOM_DOMAIN, md["custom"]))
+        return out
     req = requirements_of_nodes(md["prog"]["nodes"])
     req.append(("", 14))
     return sorted(policy(req).items())
@@ -603,9 +842,25 @@ def tainted_ids(prog) -> set:
     return blk(prog["nodes"], t)
 
 
+def oldx_ml_rejected(md, mlv) -> bool:
+    import onnx.defs
+
+    for n in oldx_model(md).graph.node:
+        if n.domain != "ai.onnx.ml":
+            continue
+        try:
+            sch = onnx.defs.get_schema(n.op_type, mlv, "ai.onnx.ml")
+        except Exception:  # noqa: BLE001
+            return True
+        if any(a.name not in sch.attributes for a in n.attribute):
+            return True
+    return False
+
+
 def features(prog) -> list[str]:
     """Structural features of a (shrunk) witness, from the abstract program and onnx.defs only."""
-    imp = expected_imports(prog).get("", 14)
+    all_imp = expected_imports(prog)
+    imp = all_imp.get("", 14)
     taint = tainted_ids(prog)
     feats = set()
     n_fresh = 0
@@ -632,6 +887,12 @@ def features(prog) -> list[str]:
                         feats.add("inline-in-body-below-import")
         if st["op"] == "reffn" and since("", "Constant", st["mv"]) != since("", "Constant", imp):
             feats.add("ref-attr-converted")
+        if st["op"] == "inline" and st["model"]["kind"] == "oldx" and st["model"].get("ml"):
+            # a non-default-domain node of the legacy model whose form the schema in force at the model's
+            # import of that domain does not accept (nothing converts it): onnx.defs only
+            mlv = all_imp.get("ai.onnx.ml", 1)
+            if oldx_ml_rejected(st["model"], mlv):
+                feats.add("inline-ml-node-form-rejected")
         if st["op"] == "inline":
             mi = policy(model_imports(st["model"])).get("")
             if mi is not None and mi < 14 and imp == 14:
@@ -659,6 +920,10 @@ class Gen:
                                     [19, 21], [17, 18, 21], [17, 20]])
         # sometimes only function bodies are written against the newest module (the model's maximum
         # is then required by a function body alone)
+        self.inline_in_func = rng.random() < 0.5
+        self.last_inline = None
+        self.shared_models: set = set()
+        self.funcs_made: list = []
         self.func_versions = None
         if len(self.versions) >= 2 and rng.random() < 0.3:
             hi = max(self.versions)
@@ -727,9 +992,18 @@ class Gen:
             elif r < 0.22 and depth == 0 and not in_func and self.allow_func:
                 st = {"id": self.fresh(), "op": "reffn", "mv": self.mv(), "name": f"RefFn{next(_uid)}",
                       "k": rng.choice([2.0, -0.5, 1.5]), "args": [rng.choice([p_ for p_ in pool if p_ not in tainted] or ["x"])]}
-            elif r < 0.27 and self.allow_inline and not in_func:
-                st = {"id": self.fresh(), "op": "inline", "model": self.model_desc(),
-                      "args": [rng.choice(pool)]}
+                self.funcs_made.append(st)
+            elif r < 0.27 and self.allow_inline and (not in_func or self.inline_in_func):
+                md = self.model_desc()
+                if in_func and md["kind"] not in ("old", "oldx"):
+                    md = self.oldx_desc()
+                st = {"id": self.fresh(), "op": "inline", "model": md, "args": [rng.choice(pool)]}
+                if self.last_inline is not None and rng.random() < 0.35:
+                    # the same callable returned by `inline` applied once more
+                    st["model"] = copy_json(self.last_inline)
+                    st["share"] = True
+                    self.shared_models.add(json_key(st["model"]))
+                self.last_inline = st["model"]
             elif r < 0.33 and self.allow_func and depth == 0 and not in_func:
                 np_ = rng.randrange(1, 3)
                 params = [self.fresh() for _ in range(np_)]
@@ -757,6 +1031,16 @@ class Gen:
                                              for _ in range(np_)]}
                 if bt:
                     tainted.add(st["id"])
+                else:
+                    self.funcs_made.append(st)
+            elif r < 0.36 and self.allow_func and not in_func and self.funcs_made:
+                # another application of a function made earlier (main graph or a body): the same callable
+                f0 = rng.choice(self.funcs_made)
+                st = copy_json(f0)
+                st["id"] = self.fresh()
+                st["args"] = [rng.choice([p for p in pool if p not in tainted] or ["x"]) for _ in f0.get("params", [0])]
+                if st["op"] == "reffn" and rng.random() < 0.5:
+                    st["k"] = rng.choice([2.0, -0.5, 1.5, 3.0])  # the same function, another attribute value
             elif r < 0.39 and self.allow_ml:
                 st = {"id": self.fresh(), "op": rng.choice(list(ML_MACROS)), "mv": rng.choice(ML_VERSIONS),
                       "dv": self.mv(), "args": [rng.choice([p for p in pool if p not in tainted] or ["x"])]}
@@ -782,8 +1066,29 @@ class Gen:
         out = nodes[-1]["id"]
         return {"nodes": nodes, "out": out}, (out in tainted)
 
+    def oldx_desc(self, *, allow_le1=False):
+        """A legacy model that needs real conversion and uses ai.onnx.ml (1, 2, 3) and / or a custom domain."""
+        rng = self.rng
+        body = rng.choice([b for b in OLDX_BODIES if b != "relu_neg"] * 3 + ["relu_neg"])
+        lo, hi, _ = OLDX_BODIES[body]
+        md = {"kind": "oldx", "body": body, "opset": rng.randrange(lo, hi + 1)}
+        r = rng.random()
+        if r < 0.75:
+            kinds = ["scaler", "binarizer", "norm", "afe", "le2", "le2"] + (["le1"] if allow_le1 else [])
+            kind = rng.choice(kinds)
+            md["ml"] = [kind, rng.randrange(OLDX_ML[kind][0], 4) if kind != "le1" else 1]
+        if r >= 0.6:
+            md["custom"] = rng.randrange(1, 4)
+        if rng.random() < 0.3:
+            md["pos"] = "before"
+        if rng.random() < 0.15:
+            md["alias"] = True
+        return md
+
     def model_desc(self):
         rng = self.rng
+        if rng.random() < 0.30:
+            return self.oldx_desc(allow_le1=(not self.clean and rng.random() < 0.3))
         if rng.random() < 0.08:
             return {"kind": "ml_only", "mlv": rng.choice([1, 2, 3])}
         if rng.random() < 0.12:
@@ -820,12 +1125,286 @@ class Gen:
                 outs.append(fx["id"])
             else:
                 outs.append(o)
-        prog = sink(prune({"nodes": nodes, "outs": outs}))
+        prog = mark_shared_inlines(sink(prune({"nodes": nodes, "outs": outs})))
         if self.rng.random() < 0.12:
             prog["with_opset"] = [[self.rng.choice(["ai.onnx", "ai.onnx", ""]), self.rng.randrange(13, 22)]]
         if self.clean:
             align_unknown_rank(prog)
         return prog
+
+
+def copy_json(x):
+    import json
+
+    return json.loads(json.dumps(x))
+
+
+def json_key(x):
+    import json
+
+    return json.dumps(x, sort_keys=True)
+
+
+def mark_shared_inlines(prog):
+    """Every inline statement whose model description occurs in a `share`d statement is shared too (one
+    callable for all of them), wherever pruning / sinking left them."""
+    shared = {json_key(st["model"]) for st, *_ in walk(prog["nodes"]) if st["op"] == "inline" and st.get("share")}
+    for st, *_ in walk(prog["nodes"]):
+        if st["op"] == "inline" and json_key(st["model"]) in shared:
+            st["share"] = True
+    return prog
+
+
+def func_twice_program(rng, idx=0):
+    """Feedback class (round 7): a function whose body needs conversion (a v17 operator with an attribute the
+    newer schema takes as an input, Split, DFT, GridSample …, or an inlined legacy model), a newer operator
+    raising the model's opset, the function applied 2-4 times: main graph and / or If / Loop bodies."""
+    g = Gen(rng, clean=True, size=rng.randrange(1, 5), max_depth=1, allow_dyn=False, allow_func=False,
+            allow_inline=False, allow_ml=False)
+    g.func_versions = None
+    lo = rng.choice([17, 17, 17, 18, 19])
+    g.versions = [lo]
+    np_ = rng.randrange(1, 3)
+    params = [g.fresh() for _ in range(np_)]
+    body_nodes = []
+    cur = params[0]
+    for _ in range(rng.randrange(1, 4)):
+        r = rng.random()
+        if r < 0.55:
+            op = rng.choice(CONVERTIBLE + ["split_cat", "dft", "grid_sample", "rlogsum", "rlse", "resize", "identity", "pad"])
+            st = {"id": g.fresh(), "op": op, "mv": lo, "args": [cur]}
+            if "params" in MACROS[op]:
+                st["p"] = MACROS[op]["params"](rng)
+        elif r < 0.75:
+            st = {"id": g.fresh(), "op": "inline", "model": g.oldx_desc(), "args": [cur]}
+        elif r < 0.9 and np_ == 2:
+            st = {"id": g.fresh(), "op": rng.choice(["add", "sub", "mul"]), "mv": lo, "args": [cur, params[1]]}
+        else:
+            t = {"id": g.fresh(), "op": rng.choice(CONVERTIBLE), "mv": lo, "args": [cur], "p": {"axis": rng.randrange(2)}}
+            e = {"id": g.fresh(), "op": "neg", "mv": lo, "args": [cur]}
+            st = {"id": g.fresh(), "op": "if", "mv": lo, "cond": rng.choice(["t", "f"]),
+                  "then": {"nodes": [t], "out": t["id"]}, "else": {"nodes": [e], "out": e["id"]}}
+        body_nodes.append(st)
+        cur = st["id"]
+    fdef = {"op": "func", "name": f"ftw{idx}_{next(_uid)}", "domain": rng.choice(["spox.verif", "verif.other"]),
+            "params": params, "body": {"nodes": body_nodes, "out": cur}}
+    defs = [fdef]
+    if rng.random() < 0.3:
+        # a second function whose body applies the first one (twice, or once next to a convertible node): the inner
+        # function is then instantiated inside several instances of the outer one
+        op1 = g.fresh()
+        c1 = copy_json(fdef)
+        c1.update(id=g.fresh(), args=[op1] * np_)
+        mid = {"id": g.fresh(), "op": rng.choice(CONVERTIBLE), "mv": lo, "args": [c1["id"]], "p": {"axis": rng.randrange(2)}}
+        inner_nodes = [c1, mid]
+        out = mid["id"]
+        if rng.random() < 0.6:
+            c2 = copy_json(fdef)
+            c2.update(id=g.fresh(), args=[mid["id"]] * np_)
+            inner_nodes.append(c2)
+            out = c2["id"]
+        defs.append({"op": "func", "name": f"fout{idx}_{next(_uid)}", "domain": rng.choice(["spox.verif", "verif.other"]),
+                     "params": [op1], "body": {"nodes": inner_nodes, "out": out}})
+    blk, _ = g.block(["x", "y"], set(), 0, g.size)
+    nodes = list(blk["nodes"])
+    taint = tainted_ids({"nodes": nodes, "outs": []})
+    pool = ["x", "y"] + [st["id"] for st in nodes if st["id"] not in taint]
+    tops = []
+
+    def call(args_pool):
+        c = copy_json(defs[-1] if rng.random() < 0.7 else rng.choice(defs))
+        c["id"] = g.fresh()
+        c["args"] = [rng.choice(args_pool) for _ in c["params"]]
+        return c
+
+    n_calls = rng.choice([2, 2, 3, 4])
+    for k in range(n_calls):
+        where = rng.choice(["top", "top", "if", "loop"]) if k else "top"
+        if where == "top":
+            c = call(pool)
+            nodes.append(c)
+            tops.append(c["id"])
+            pool.append(c["id"])
+        elif where == "if":
+            c = call(pool)
+            other = call(pool) if rng.random() < 0.4 else {"id": g.fresh(), "op": "abs", "mv": lo, "args": [rng.choice(pool)]}
+            e = {"id": g.fresh(), "op": "if", "mv": rng.choice([lo, 17]), "cond": rng.choice(["c", "nc"]),
+                 "then": {"nodes": [c], "out": c["id"]}, "else": {"nodes": [other], "out": other["id"]}}
+            nodes.append(e)
+            tops.append(e["id"])
+        else:
+            pid = g.fresh()
+            c = call([pid])
+            e = {"id": g.fresh(), "op": "loop", "mv": lo, "param": pid, "args": [rng.choice(pool)],
+                 "body": {"nodes": [c], "out": c["id"]}}
+            fx = {"id": g.fresh(), "op": "fix", "mv": lo, "args": [e["id"]]}
+            nodes += [e, fx]
+            tops.append(fx["id"])
+    hi = rng.choice([h for h in (18, 19, 20, 21) if h > lo])
+    op_, mv_ = PIN[hi]
+    cur = tops[0]
+    for t in tops[1:]:
+        e = {"id": g.fresh(), "op": rng.choice(["add", "sub", "mul"]), "mv": lo, "args": [cur, t]}
+        nodes.append(e)
+        cur = e["id"]
+    e = {"id": g.fresh(), "op": op_, "mv": mv_, "args": [cur]}
+    nodes.append(e)
+    prog = sink(prune({"nodes": nodes, "outs": [e["id"]]}))
+    align_unknown_rank(prog)
+    return prog
+
+
+def inline_mix_program(rng, idx=0):
+    """Feedback class: a legacy inlined model that needs REAL conversion and uses ai.onnx.ml / a custom domain,
+    while the program elsewhere (top level, an If / Loop body, a function, another inlined model) requests
+    that domain at a different version."""
+    g = Gen(rng, clean=True, size=rng.randrange(1, 6), max_depth=rng.randrange(0, 2), allow_dyn=False,
+            allow_func=False, allow_inline=False, allow_ml=rng.random() < 0.3)
+    g.func_versions = None
+    blk, _ = g.block(["x", "y"], set(), 0, g.size)
+    nodes = list(blk["nodes"])
+    taint = tainted_ids({"nodes": nodes, "outs": []})
+    pool = ["x", "y"] + [st["id"] for st in nodes if st["id"] not in taint]
+    md = g.oldx_desc()
+    if not md.get("ml") and not md.get("custom"):
+        md["ml"] = ["scaler", rng.randrange(1, 4)]
+    a = {"id": g.fresh(), "op": "inline", "model": md, "args": [rng.choice(pool)]}
+    nodes.append(a)
+    tops = [a["id"]]
+    where = rng.choice(["top", "if", "loop", "func", "inline2", "inline2", "func_if"])
+    src = rng.choice(pool + [a["id"]])
+
+    def ml_stmt(arg):
+        op = rng.choice(["ml_label", "ml_label", "ml_scaler", "ml_binarizer"])
+        return {"id": g.fresh(), "op": op, "mv": rng.choice(ML_VERSIONS), "dv": g.mv(), "args": [arg]}
+
+    if where == "top":
+        e = ml_stmt(src)
+        nodes.append(e)
+        tops.append(e["id"])
+    elif where == "if":
+        t = ml_stmt(src)
+        f = {"id": g.fresh(), "op": rng.choice(PLAIN[4:]), "mv": g.mv(), "args": [src]}
+        if rng.random() < 0.5:
+            md2 = g.oldx_desc()
+            f = {"id": g.fresh(), "op": "inline", "model": md2, "args": [src]}
+        e = {"id": g.fresh(), "op": "if", "mv": g.mv(), "cond": rng.choice(["c", "nc"]),
+             "then": {"nodes": [t], "out": t["id"]}, "else": {"nodes": [f], "out": f["id"]}}
+        nodes.append(e)
+        tops.append(e["id"])
+    elif where == "loop":
+        pid = g.fresh()
+        t = ml_stmt(pid)
+        e = {"id": g.fresh(), "op": "loop", "mv": g.mv(), "param": pid, "args": [src if src not in taint else "x"],
+             "body": {"nodes": [t], "out": t["id"]}}
+        fx = {"id": g.fresh(), "op": "fix", "mv": g.mv(), "args": [e["id"]]}
+        nodes += [e, fx]
+        tops.append(fx["id"])
+    elif where in ("func", "func_if"):
+        pid = g.fresh()
+        t = ml_stmt(pid)
+        body = {"nodes": [t], "out": t["id"]}
+        if where == "func_if":
+            f = {"id": g.fresh(), "op": "neg", "mv": g.mv(), "args": [pid]}
+            i = {"id": g.fresh(), "op": "if", "mv": g.mv(), "cond": rng.choice(["t", "f"]),
+                 "then": {"nodes": [t], "out": t["id"]}, "else": {"nodes": [f], "out": f["id"]}}
+            body = {"nodes": [i], "out": i["id"]}
+        e = {"id": g.fresh(), "op": "func", "name": f"fmix{idx}_{next(_uid)}", "domain": rng.choice(["spox.verif", "verif.other"]),
+             "params": [pid], "body": body, "args": [src]}
+        nodes.append(e)
+        tops.append(e["id"])
+    else:  # another legacy model asking for the same non-default domains at other versions
+        md2 = g.oldx_desc()
+        if md.get("ml"):
+            kind = rng.choice(["scaler", "binarizer", "norm", "afe", "le2"])
+            md2["ml"] = [kind, rng.choice([v for v in (1, 2, 3) if v >= OLDX_ML[kind][0] and v != md["ml"][1]] or [3])]
+        if md.get("custom"):
+            md2["custom"] = rng.choice([v for v in (1, 2, 3) if v != md["custom"]])
+        e = {"id": g.fresh(), "op": "inline", "model": md2, "args": [src]}
+        nodes.append(e)
+        tops.append(e["id"])
+    # something from a newer default-domain module, so that the import is above the legacy model's opset
+    if rng.random() < 0.7:
+        hi = rng.choice([18, 19, 20, 21])
+        op_, mv_ = PIN[hi]
+        e = {"id": g.fresh(), "op": op_, "mv": mv_, "args": [tops[-1]]}
+        nodes.append(e)
+        tops[-1] = e["id"]
+    cur = tops[0]
+    for t in tops[1:]:
+        e = {"id": g.fresh(), "op": rng.choice(["add", "sub", "mul"]), "mv": g.mv(), "args": [cur, t]}
+        nodes.append(e)
+        cur = e["id"]
+    outs = [cur] + [st["id"] for st in nodes if st["op"] == "func"]
+    if nodes and nodes[0]["id"] not in taint and rng.random() < 0.3 and nodes[0]["id"] not in outs:
+        outs.append(nodes[0]["id"])
+    prog = sink(prune({"nodes": nodes, "outs": outs}))
+    align_unknown_rank(prog)
+    return prog
+
+
+NAME_MAPS = [{}, {"x": "y", "y": "x"}, {"x": "p", "y": "q"}, {"x": "q", "y": "p"}, {"x": "x", "y": "p"}, {"x": "y", "y": "q"}]
+
+
+def make_history(rng, prog, idx=0):
+    """Feedback class: 2-3 builds over the SAME Var objects, every build needing conversion, where between
+    builds the names given to `build` change: arguments permuted / renamed, outputs renamed / permuted /
+    other subsets, intermediate values renamed through `Var._rename`, the low-level Graph API.
+    prog["history"] = [spec...]; the last spec is the build observed against the model; every build is judged.
+    spec = {"names": {role: name}, "outs": [[name, id]...], "low": bool, "renames": {id: name}}"""
+    import copy
+
+    p = copy.deepcopy(prog)
+    p.pop("prebuild_outs", None)
+    top = [st["id"] for st in p["nodes"]]
+    taint = tainted_ids(p)
+    base_outs = list(p["outs"])
+    # values the later builds put on top: identities from newer modules (raise the maximum -> more conversion)
+    raised = {}
+    for k, o in enumerate(base_outs):
+        hi = rng.choice([19, 21, 21])
+        nid = f"h{idx}_{k}"
+        p["nodes"].append({"id": nid, "op": "identity", "mv": hi, "args": [o]})
+        raised[o] = nid
+    inner = [t for t in top if t not in taint and t not in base_outs]
+    n = rng.choice([2, 2, 3])
+    specs = []
+    prev_outs = None
+    for b in range(n):
+        mode = rng.random()
+        if prev_outs is not None and mode < 0.55:
+            ids = list(prev_outs)  # same operators, same maximum: only the names differ
+        else:
+            ids = [raised[o] if rng.random() < 0.6 else o for o in base_outs]
+            if inner and rng.random() < 0.3:
+                ids.append(rng.choice(inner))
+        if len(ids) > 1 and rng.random() < 0.4:
+            rng.shuffle(ids)
+        ids = list(dict.fromkeys(ids))
+        style = rng.randrange(3)
+        names = [f"out{i}" for i in range(len(ids))]
+        if style == 1:
+            names = list(reversed(names))
+        elif style == 2:
+            names = [f"r{b}_{i}" for i in range(len(ids))]
+        spec = {"names": dict(rng.choice(NAME_MAPS)), "outs": [[nm, i] for nm, i in zip(names, ids)]}
+        if specs and rng.random() < 0.2:
+            spec = copy.deepcopy(specs[-1])  # exactly the same build once more
+        if rng.random() < 0.25:
+            spec["low"] = True
+        if inner and rng.random() < 0.35:
+            spec["renames"] = {i: f"zq{b}_{j}" for j, i in enumerate(rng.sample(inner, min(len(inner), rng.randrange(1, 3))))}
+        specs.append(spec)
+        prev_outs = ids
+    p["history"] = specs
+    p["outs"] = [i for _, i in specs[-1]["outs"]]
+    align_unknown_rank(p)
+    return p
+
+
+def spec_program(prog, spec):
+    """The abstract program one build of a history is about: its outputs, nothing else reachable."""
+    return sink(prune({"nodes": prog["nodes"], "outs": [i for _, i in spec["outs"]]}))
 
 
 PIN = {18: ("pad", 18), 19: ("identity", 19), 20: ("isnan_w", 20), 21: ("identity", 21)}
